@@ -22,8 +22,10 @@ def expr_equals(self, other):
     while left:
         pair = left.pop()
         s, o = pair
-        if s._ufl_is_terminal_:
-            # Compare terminals
+        if getattr(s, "_ufl_is_terminal_", True):
+            # Compare terminals (and base forms held by an expression,
+            # e.g. a Coargument direction in an ExprList, which are not
+            # expressions and have no operands to delve into)
             if not s == o:
                 return False
         else:
